@@ -14,6 +14,7 @@ import (
 	"context"
 	"fmt"
 	"math/rand"
+	"runtime"
 	"sort"
 	"strconv"
 	"sync"
@@ -32,6 +33,11 @@ const (
 	c18CfgDup       = "two-objects-one-member" // several Mutex objects for one name taken from ONE member
 	c18CfgWaitTO    = "timeout-while-waiting"  // a waiter on another member gives up while the lock is held
 	c18CfgRPCTO     = "timeout-in-acquire-rpc" // the acquire request itself times out on a free lock
+	// first use of a lock name: the contending goroutines call cluster.Mutex(name) THEMSELVES, all at
+	// the same instant, for a name no one has asked for before (nothing cached in the member), and then
+	// contend on whatever they were handed; repeated over several fresh names per round
+	c18CfgFirst1 = "first-use-one-member"  // all goroutines on one member
+	c18CfgFirst2 = "first-use-two-members" // goroutines on both members
 )
 
 type c18Actor struct {
@@ -40,6 +46,11 @@ type c18Actor struct {
 	Obj    int    `json:"obj"`
 	Acq    int    `json:"acquisitions"`
 	HoldUs []int  `json:"hold_us"`
+	// first-use configurations: the goroutine has obtained its object itself (c18FetchTogether); MBegin/MEnd
+	// are the logical-clock stamps around that cluster.Mutex call, Obj numbers the objects a member handed
+	// out for the name by identity
+	MBegin int64 `json:"mutex_call_begin,omitempty"`
+	MEnd   int64 `json:"mutex_call_end,omitempty"`
 	mu     Mutex
 	cl     *cluster
 }
@@ -137,6 +148,53 @@ func c18RunRound(dataKey string, actors []*c18Actor, rng *rand.Rand, watchdog ti
 	return out
 }
 
+type c18Got struct {
+	mu         Mutex
+	begin, end int64 // logical clock around the cluster.Mutex call
+	err        error
+}
+
+// c18FetchTogether is the first use of lock names: goroutine g (a user of member who[g]) asks ITS
+// member for the mutex of every name, and before each name all goroutines meet at a spinning
+// barrier, so that their cluster.Mutex calls for that name start within a few instructions of each
+// other (a closed channel would wake them one after the other).  Nobody has asked for these names
+// before.
+func c18FetchTogether(members map[string]*cluster, who []string, names []string, watchdog time.Duration) ([][]c18Got, bool) {
+	var clock, arrived int64
+	n := int64(len(who))
+	got := make([][]c18Got, len(who))
+	var wg sync.WaitGroup
+	for g := range who {
+		g := g
+		got[g] = make([]c18Got, len(names))
+		cl := members[who[g]]
+		wg.Add(1)
+		go func() {
+			defer wg.Done()
+			for k := range names {
+				atomic.AddInt64(&arrived, 1)
+				for spins := 1; atomic.LoadInt64(&arrived) < n*int64(k+1); spins++ {
+					if spins%4096 == 0 {
+						runtime.Gosched()
+					}
+				}
+				x := &got[g][k]
+				x.begin = atomic.AddInt64(&clock, 1)
+				x.mu, x.err = cl.Mutex(names[k])
+				x.end = atomic.AddInt64(&clock, 1)
+			}
+		}()
+	}
+	done := make(chan struct{})
+	go func() { wg.Wait(); close(done) }()
+	select {
+	case <-done:
+		return got, false
+	case <-time.After(watchdog):
+		return nil, true
+	}
+}
+
 func c18Relation(a, b c18Ev) string {
 	switch {
 	case a.Member != b.Member:
@@ -201,11 +259,14 @@ func TestVerif_C18_Mutex(t *testing.T) {
 	r.Rule("rounds on a real embedded etcd with a primary and a secondary member in one process, each round on a fresh lock name: " +
 		"(shared-object) 3-6 goroutines share one cluster.Mutex object; (object-per-member) one object on each member, 1-3 goroutines per member; " +
 		"(two-objects-one-member) 2-3 objects for one name taken from the same member, 1-2 goroutines each; every goroutine does 2-5 acquisitions with hold times 0-20 ms; " +
+		"(first-use-one-member / first-use-two-members) batches of fresh lock names that nobody has asked the cluster for before: 4-7 goroutines of one member and 2-3 names (one batch on each member per round), resp. 2-4 goroutines on each of the two members and 3-5 names; before every name the goroutines meet at a spinning barrier and then call cluster.Mutex(name) THEMSELVES at the same instant (cold per-member mutex cache; in the first round of a process also a member session that does not exist yet); then, name after name, they contend on whatever object they were handed (1-2 acquisitions, hold times 0-2 ms); the objects are numbered by identity, which only labels the relation of two overlapping holders in the signature; " +
 		"the critical section bumps a holder counter, stamps a logical-clock interval and does a non-atomic read-modify-write of an etcd key through the cluster API; " +
 		"(timeout-while-waiting) a waiter on the other member with a 150-400 ms request timeout gives up while the lock is held; (timeout-in-acquire-rpc) acquisitions of a free lock with a 0.1-1 ms request timeout; " +
 		"after every failed Lock the process-local lock must be free and, once every holder has unlocked, no lock key of the name may remain in etcd; then other members must acquire it. " +
-		"distinct = (configuration, goroutines, acquisitions, max pending Lock calls seen at an entry, zero-hold present)")
+		"distinct = (configuration, goroutines, acquisitions, max pending Lock calls seen at an entry, zero-hold present); first-use rounds: (configuration, fresh names, max goroutines per batch, names on which cluster.Mutex calls of one member overlapped in logical time, max pending, zero-hold present). " +
+		"required observations of the first-use class: rounds of both kinds, >= 5 fresh names on which the cluster.Mutex calls of two goroutines of ONE member overlapped (logical-clock stamps around the call), >= 5 entries with other Lock calls pending")
 	r.Assume("mutex users call Unlock only after a successful Lock, from the goroutine that locked (the documented sync.Locker discipline)")
+	r.Assume("in the first-use rounds every goroutine keeps using the object its own cluster.Mutex call returned (no re-fetch between acquisitions)")
 	r.Assume("short request timeouts are injected by setting the unexported timeout field of an object returned by cluster.Mutex before it is used; the cluster itself keeps its 10 s request timeout")
 
 	rig, err := c18StartRig(r.TmpDir(), true)
@@ -223,10 +284,12 @@ func TestVerif_C18_Mutex(t *testing.T) {
 	}
 	members := map[string]*cluster{"primary": rig.primary, "secondary": rig.secondary}
 	memberNames := []string{"primary", "secondary"}
-	// 7 entries: coprime with the shard counts, so every shard sees every configuration
-	cfgCycle := []string{c18CfgShared, c18CfgPerMember, c18CfgDup, c18CfgWaitTO, c18CfgPerMember, c18CfgRPCTO, c18CfgDup}
+	// 9 entries: coprime with the shard counts, so every shard sees every configuration.  The first-use
+	// configurations come first: the first round of a shard then also meets the members' etcd sessions
+	// not yet created (cluster.getSession creates the session on the first Mutex call of a member).
+	cfgCycle := []string{c18CfgFirst1, c18CfgFirst2, c18CfgShared, c18CfgPerMember, c18CfgDup, c18CfgWaitTO, c18CfgPerMember, c18CfgRPCTO, c18CfgDup}
 
-	n := r.N(63, 1575)
+	n := r.N(81, 2025)
 	for i := 0; i < n; i++ {
 		if !r.Mine(i) {
 			continue
@@ -297,116 +360,140 @@ func TestVerif_C18_Mutex(t *testing.T) {
 				r.Inconclusive(fmt.Sprintf("round %d (%s) did not finish within the 5 min watchdog; aborting this shard", i, cfg))
 				return
 			}
-			r.Eval(len(res.evs))
 			r.Count("rounds:"+cfg, 1)
-			r.Count("critical_sections:"+cfg, int64(len(res.evs)))
-			r.Count("lock_errors", int64(len(res.lockErrs)))
-			r.Count("unlock_errors", int64(len(res.unlockErrs)))
-			if len(res.lockErrs)+len(res.unlockErrs) > 0 {
-				r.Note("round %d (%s): lock errors %v unlock errors %v", i, cfg, res.lockErrs, res.unlockErrs)
-			}
-			maxW, zeroHold, rmwErr := int32(0), false, false
-			for _, e := range res.evs {
-				if e.Waiters > maxW {
-					maxW = e.Waiters
-				}
-				if e.Waiters > 0 {
-					r.Count("entries_with_other_lock_calls_pending:"+cfg, 1)
-				}
-				if e.RMWErr != "" {
-					rmwErr = true
-				}
-			}
-			for _, a := range actors {
-				for _, h := range a.HoldUs {
-					if h == 0 {
-						zeroHold = true
-					}
-				}
-			}
+			maxW, zeroHold := c18JudgeRound(r, i, cfg, name, dataKey, actors, res, rig, cli)
 			r.Cover(fmt.Sprintf("%s/g%d/acq%d/pending%d/zero%v", cfg, len(actors), acq, maxW, zeroHold))
-
-			// ---- oracle 1: at most one holder (counter and interval history)
-			detail := func(extra map[string]interface{}) map[string]interface{} {
-				m := map[string]interface{}{"config": cfg, "lock": name, "actors": actors, "history": res.evs}
-				for k, v := range extra {
-					m[k] = v
-				}
-				return m
-			}
-			pairs := c18Overlaps(res.evs)
-			byRel := map[string]int{}
-			for _, p := range pairs {
-				byRel[c18Relation(p[0], p[1])]++
-			}
-			for _, e := range res.evs {
-				if e.Holders != 1 && len(pairs) == 0 {
-					// the counter saw two holders although the stamped intervals do not intersect (cannot
-					// happen: both are taken between Lock and Unlock) - report it all the same
-					byRel["counter-only"]++
-				}
-			}
-			for rel, cnt := range byRel {
-				r.Count("overlapping_critical_sections:"+cfg, int64(cnt))
-				var first interface{}
-				for _, p := range pairs {
-					if c18Relation(p[0], p[1]) == rel {
-						first = p
-						break
-					}
-				}
-				r.Violation("mutex:overlap:"+cfg+":"+rel, detail(map[string]interface{}{
-					"overlapping_pairs": cnt, "critical_sections": len(res.evs), "first_pair": first}))
-			}
-			// ---- oracle 2: no lost update of the shared key
-			if rmwErr {
-				r.Count("rounds_with_rmw_error", 1)
-				r.Note("round %d: etcd get/put inside the critical section failed; lost-update oracle skipped", i)
-			} else {
-				final := 0
-				v, gerr := rig.primary.Get(dataKey)
-				if gerr != nil {
-					r.Inconclusive("final read of the shared key failed: " + gerr.Error())
-				} else {
-					if v != nil {
-						final, _ = strconv.Atoi(*v)
-					}
-					seen := map[int]int{}
-					dups := 0
-					for _, e := range res.evs {
-						seen[e.Wrote]++
-						if seen[e.Wrote] == 2 {
-							dups++
-						}
-					}
-					if final != len(res.evs) || dups > 0 {
-						r.Count("lost_updates:"+cfg, int64(len(res.evs)-final))
-						r.Violation("mutex:lost-update:"+cfg, detail(map[string]interface{}{
-							"critical_sections": len(res.evs), "final_counter": final, "values_written_twice": dups}))
-					}
-				}
-			}
-			// ---- oracle 3: everything released
-			for _, a := range actors {
-				if !c18LocalFree(a.mu) {
-					r.Violation("mutex:local-lock-held-after-round:"+cfg, detail(map[string]interface{}{"actor": a.G}))
-					break
-				}
-			}
-			if len(res.unlockErrs) == 0 {
-				if ks, err := c18LockKeys(cli, name); err == nil && len(ks) > 0 {
-					sig := "mutex:lock-key-left-after-unlock:" + cfg
-					if len(res.lockErrs) > 0 {
-						// some Lock call failed (10 s request timeout under load): the key belongs to a failed acquisition
-						sig = "mutex:timed-out-lock-left-etcd-key:" + cfg
-					}
-					r.Violation(sig, detail(map[string]interface{}{"keys": ks, "lock_errors": res.lockErrs}))
-					c18Purge(cli, name)
-				}
-			}
 			if i < 3 {
 				r.Sample(map[string]interface{}{"config": cfg, "actors": actors, "history": res.evs})
 			}
+
+		case c18CfgFirst1, c18CfgFirst2:
+			// ---- batches of fresh names; the goroutines of a batch ask their member for the mutexes
+			// themselves, at the same instant, and then contend on what they got, name after name
+			type batch struct {
+				Who    []string `json:"goroutine_member"`
+				Names  []string `json:"fresh_names"`
+				Acq    int      `json:"acquisitions"`
+				HoldUs [][]int  `json:"hold_us"` // [name][goroutine*Acq+acquisition]
+			}
+			var batches []*batch
+			mkBatch := func(tag string, who []string, nk int) {
+				b := &batch{Who: who, Acq: 1 + rng.Intn(4)/3}
+				for k := 0; k < nk; k++ {
+					b.Names = append(b.Names, fmt.Sprintf("%s-%s%d", name, tag, k))
+					var hs []int
+					for x := 0; x < len(who)*b.Acq; x++ {
+						h := 0
+						if rng.Intn(4) != 0 {
+							h = rng.Intn(2000)
+						}
+						hs = append(hs, h)
+					}
+					b.HoldUs = append(b.HoldUs, hs)
+				}
+				batches = append(batches, b)
+			}
+			if cfg == c18CfgFirst1 {
+				// one batch on each member (both members serve fresh names in every round)
+				first := rng.Intn(2)
+				for x := 0; x < 2; x++ {
+					member := memberNames[(first+x)%2]
+					var who []string
+					for g, ng := 0, 4+rng.Intn(4); g < ng; g++ {
+						who = append(who, member)
+					}
+					mkBatch(fmt.Sprintf("b%d-", x), who, 2+rng.Intn(2))
+				}
+			} else {
+				var who []string
+				for _, member := range memberNames {
+					for g, ng := 0, 2+rng.Intn(3); g < ng; g++ {
+						who = append(who, member)
+					}
+				}
+				rng.Shuffle(len(who), func(x, y int) { who[x], who[y] = who[y], who[x] }) // interleave the members in launch order
+				mkBatch("b0-", who, 3+rng.Intn(3))
+			}
+			r.Case(i, map[string]interface{}{"config": cfg, "lock": name, "batches": batches})
+			r.Count("rounds:"+cfg, 1)
+			nNames, namesCoinc, maxPending, anyZero, maxG := 0, 0, int32(0), false, 0
+			for bi, b := range batches {
+				got, timedOut := c18FetchTogether(members, b.Who, b.Names, 3*time.Minute)
+				if timedOut {
+					r.Inconclusive(fmt.Sprintf("round %d (%s): the cluster.Mutex calls did not return within the 3 min watchdog; aborting this shard", i, cfg))
+					return
+				}
+				if len(b.Who) > maxG {
+					maxG = len(b.Who)
+				}
+				for k, lock := range b.Names {
+					data := fmt.Sprintf("%s-b%d-%d", dataKey, bi, k)
+					var actors []*c18Actor
+					mkErr := error(nil)
+					objs := map[string][]Mutex{} // objects handed out per member, numbered by identity
+					for g, member := range b.Who {
+						x := got[g][k]
+						if x.err != nil {
+							mkErr = x.err
+							continue
+						}
+						a := &c18Actor{G: len(actors), Member: member, Obj: -1, Acq: b.Acq, HoldUs: b.HoldUs[k][g*b.Acq : (g+1)*b.Acq],
+							MBegin: x.begin, MEnd: x.end, mu: x.mu, cl: members[member]}
+						for o, m := range objs[member] {
+							if m == x.mu {
+								a.Obj = o
+							}
+						}
+						if a.Obj < 0 {
+							a.Obj = len(objs[member])
+							objs[member] = append(objs[member], x.mu)
+						}
+						actors = append(actors, a)
+					}
+					if mkErr != nil {
+						r.Inconclusive("cluster.Mutex failed: " + mkErr.Error())
+						continue
+					}
+					// did cluster.Mutex calls of two goroutines of ONE member for this name overlap in time?
+					coinc := 0
+					for x, a := range actors {
+						for _, c := range actors[x+1:] {
+							if a.Member == c.Member && a.MBegin < c.MEnd && c.MBegin < a.MEnd {
+								coinc++
+							}
+						}
+					}
+					nNames++
+					r.Count("fresh_names:"+cfg, 1)
+					r.Count("first_use_mutex_calls:"+cfg, int64(len(actors)))
+					if coinc > 0 {
+						namesCoinc++
+						r.Count("fresh_names_with_coinciding_mutex_calls_of_one_member:"+cfg, 1)
+						r.Count("coinciding_first_use_mutex_call_pairs_of_one_member:"+cfg, int64(coinc))
+					}
+					for member, os := range objs {
+						if len(os) > 1 {
+							// not a verdict by itself (the property speaks about holders); shown in the evidence
+							r.Count("fresh_names_with_several_objects_handed_out_by_one_member:"+cfg, 1)
+							r.Note("round %d (%s): member %s handed out %d distinct mutex objects for %s", i, cfg, member, len(os), lock)
+						}
+					}
+					res := c18RunRound(data, actors, rng, 5*time.Minute)
+					if res.timedOut {
+						r.Inconclusive(fmt.Sprintf("round %d (%s, %s) did not finish within the 5 min watchdog; aborting this shard", i, cfg, lock))
+						return
+					}
+					mw, zh := c18JudgeRound(r, i, cfg, lock, data, actors, res, rig, cli)
+					if mw > maxPending {
+						maxPending = mw
+					}
+					anyZero = anyZero || zh
+					if i < 2 && bi == 0 && k == 0 {
+						r.Sample(map[string]interface{}{"config": cfg, "lock": lock, "actors": actors, "history": res.evs})
+					}
+				}
+			}
+			r.Cover(fmt.Sprintf("%s/names%d/maxg%d/coinciding%d/pending%d/zero%v", cfg, nNames, maxG, namesCoinc, maxPending, anyZero))
 
 		case c18CfgWaitTO:
 			hm := memberNames[rng.Intn(2)]
@@ -439,9 +526,125 @@ func TestVerif_C18_Mutex(t *testing.T) {
 	r.Require("entries_with_other_lock_calls_pending:"+c18CfgShared, 5)
 	r.Require("entries_with_other_lock_calls_pending:"+c18CfgPerMember, 5)
 	r.Require("entries_with_other_lock_calls_pending:"+c18CfgDup, 1)
+	for _, cfg := range []string{c18CfgFirst1, c18CfgFirst2} {
+		r.Require("rounds:"+cfg, 1)
+		r.Require("fresh_names_with_coinciding_mutex_calls_of_one_member:"+cfg, 5)
+		r.Require("entries_with_other_lock_calls_pending:"+cfg, 5)
+	}
 	r.Require("waiter_timed_out_while_lock_held", 1)
 	r.Require("acquire_rpc_timed_out", 1)
 	r.Require("reacquired_after_timeout", 1)
+}
+
+// c18JudgeRound applies the oracles to one finished round on lock `name`: at most one holder
+// (counter + interval history), no lost update of the shared key, everything released afterwards.
+func c18JudgeRound(r *kit.Run, i int, cfg, name, dataKey string, actors []*c18Actor, res *c18Round, rig *c18Rig, cli *clientv3.Client) (maxW int32, zeroHold bool) {
+	r.Eval(len(res.evs))
+	r.Count("critical_sections:"+cfg, int64(len(res.evs)))
+	r.Count("lock_errors", int64(len(res.lockErrs)))
+	r.Count("unlock_errors", int64(len(res.unlockErrs)))
+	if len(res.lockErrs)+len(res.unlockErrs) > 0 {
+		r.Note("round %d (%s): lock errors %v unlock errors %v", i, cfg, res.lockErrs, res.unlockErrs)
+	}
+	rmwErr := false
+	for _, e := range res.evs {
+		if e.Waiters > maxW {
+			maxW = e.Waiters
+		}
+		if e.Waiters > 0 {
+			r.Count("entries_with_other_lock_calls_pending:"+cfg, 1)
+		}
+		if e.RMWErr != "" {
+			rmwErr = true
+		}
+	}
+	for _, a := range actors {
+		for _, h := range a.HoldUs {
+			if h == 0 {
+				zeroHold = true
+			}
+		}
+	}
+
+	// ---- oracle 1: at most one holder (counter and interval history)
+	detail := func(extra map[string]interface{}) map[string]interface{} {
+		m := map[string]interface{}{"config": cfg, "lock": name, "actors": actors, "history": res.evs}
+		for k, v := range extra {
+			m[k] = v
+		}
+		return m
+	}
+	pairs := c18Overlaps(res.evs)
+	byRel := map[string]int{}
+	for _, p := range pairs {
+		byRel[c18Relation(p[0], p[1])]++
+	}
+	for _, e := range res.evs {
+		if e.Holders != 1 && len(pairs) == 0 {
+			// the counter saw two holders although the stamped intervals do not intersect (cannot
+			// happen: both are taken between Lock and Unlock) - report it all the same
+			byRel["counter-only"]++
+		}
+	}
+	for rel, cnt := range byRel {
+		r.Count("overlapping_critical_sections:"+cfg, int64(cnt))
+		var first interface{}
+		for _, p := range pairs {
+			if c18Relation(p[0], p[1]) == rel {
+				first = p
+				break
+			}
+		}
+		r.Violation("mutex:overlap:"+cfg+":"+rel, detail(map[string]interface{}{
+			"overlapping_pairs": cnt, "critical_sections": len(res.evs), "first_pair": first}))
+	}
+	// ---- oracle 2: no lost update of the shared key
+	if rmwErr {
+		r.Count("rounds_with_rmw_error", 1)
+		r.Note("round %d: etcd get/put inside the critical section failed; lost-update oracle skipped", i)
+	} else {
+		final := 0
+		v, gerr := rig.primary.Get(dataKey)
+		if gerr != nil {
+			r.Inconclusive("final read of the shared key failed: " + gerr.Error())
+		} else {
+			if v != nil {
+				final, _ = strconv.Atoi(*v)
+			}
+			seen := map[int]int{}
+			dups := 0
+			for _, e := range res.evs {
+				seen[e.Wrote]++
+				if seen[e.Wrote] == 2 {
+					dups++
+				}
+			}
+			if final != len(res.evs) || dups > 0 {
+				r.Count("lost_updates:"+cfg, int64(len(res.evs)-final))
+				r.Violation("mutex:lost-update:"+cfg, detail(map[string]interface{}{
+					"critical_sections": len(res.evs), "final_counter": final, "values_written_twice": dups}))
+			}
+		}
+	}
+	// ---- oracle 3: everything released
+	for _, a := range actors {
+		if !c18LocalFree(a.mu) {
+			r.Violation("mutex:local-lock-held-after-round:"+cfg, detail(map[string]interface{}{"actor": a.G}))
+			break
+		}
+	}
+	if len(res.unlockErrs) == 0 {
+		if ks, err := c18LockKeys(cli, name); err == nil && len(ks) > 0 {
+			sig := "mutex:lock-key-left-after-unlock:" + cfg
+			if len(res.lockErrs) > 0 {
+				// some Lock call failed (10 s request timeout under load): the key belongs to a failed acquisition
+				sig = "mutex:timed-out-lock-left-etcd-key:" + cfg
+			}
+			r.Violation(sig, detail(map[string]interface{}{"keys": ks, "lock_errors": res.lockErrs}))
+			c18Purge(cli, name)
+		}
+	}
+	return
 }
 
 // c18Reacquire: bounded progress - everybody can take and release the lock now.
